@@ -160,7 +160,13 @@ impl Subject {
 
     /// A subject served by the real executable (SQLite backend), optionally with an allow-list.
     pub fn with_binary(config: Config, allowlist: Option<HashSet<Uuid>>, reopen_pct: u32) -> anyhow::Result<Subject> {
-        let kind = Kind { backend: Backend::Sqlite, entry: Entry::Http, reopen_pct, socket: true, peers: false };
+        Self::with_binary_peers(config, allowlist, reopen_pct, false)
+    }
+
+    /// `peers`: requests alternate between the executable and an in-process server instance (another
+    /// process, another spelling of the path) on the same directory.
+    pub fn with_binary_peers(config: Config, allowlist: Option<HashSet<Uuid>>, reopen_pct: u32, peers: bool) -> anyhow::Result<Subject> {
+        let kind = Kind { backend: Backend::Sqlite, entry: Entry::Http, reopen_pct, socket: true, peers };
         let d = ScratchDir::new("dbbin");
         let st = SqliteStorage::new(d.path())?;
         let mut s = Subject { kind, config, allowlist, storage: Arc::new(st), front: None, peer: None, peer_turn: 0, dir: Some(d), wrap: None, last_http: None, reopens: 0, tap: None, binary: true, bystander: None, keepalive_mode: next_keepalive_mode(), keepalive: None };
@@ -190,6 +196,12 @@ impl Subject {
             match crate::net::Proc::start(&bin, &args, &[], &[addr.clone()], std::time::Duration::from_secs(20)) {
                 Ok(proc) => {
                     self.front = Some(Front::Bin { proc, addr });
+                    self.peer = None;
+                    if self.kind.peers {
+                        // a second server instance in ANOTHER process (this one) on the same directory
+                        let own = SqliteStorage::new(self.alias_path())?;
+                        self.peer = Some(Front::Http(self.mk_app(WebServer::new(self.config.to_server(), self.allowlist.clone(), own))));
+                    }
                     return Ok(());
                 }
                 Err(e) => last_err = e,
@@ -251,12 +263,27 @@ impl Subject {
         });
         self.peer = None;
         if self.kind.peers && self.wrap.is_none() && self.kind.backend == Backend::Sqlite {
-            let own = SqliteStorage::new(self.dir.as_ref().unwrap().path()).expect("open sqlite storage");
+            let own = SqliteStorage::new(self.alias_path()).expect("open sqlite storage");
             let cfg = self.config.to_server();
             self.peer = Some(match self.kind.entry {
                 Entry::Lib => Front::Lib(Arc::new(Server::new(cfg, own))),
                 Entry::Http => self.http_front(WebServer::new(cfg, self.allowlist.clone(), own)),
             });
+        }
+    }
+
+    /// The data directory under another spelling: through a symbolic link `<dir>/self -> .` (anything
+    /// keyed by the path string then sees two different databases where there is one).
+    fn alias_path(&self) -> PathBuf {
+        let d = self.dir.as_ref().unwrap().path();
+        let link = d.join("self");
+        if std::fs::symlink_metadata(&link).is_err() {
+            let _ = std::os::unix::fs::symlink(".", &link);
+        }
+        if link.join(".").is_dir() {
+            link
+        } else {
+            d.to_path_buf()
         }
     }
 
@@ -333,6 +360,7 @@ impl Subject {
         if self.binary {
             // kill -9 and restart on the same directory
             self.front = None;
+            self.peer = None;
             self.storage = Arc::new(SqliteStorage::new(self.dir.as_ref().unwrap().path())?);
             self.start_binary()?;
             self.reopens += 1;
